@@ -40,8 +40,16 @@ static LEAN: std::sync::atomic::AtomicBool = std::sync::atomic::AtomicBool::new(
 fn lean_mode() -> bool {
     LEAN.load(std::sync::atomic::Ordering::Relaxed)
 }
+thread_local! {
+    /// id of the probe that panics at its next invocation (usize::MAX: none); disarms itself
+    static PANIC_ID: Cell<usize> = const { Cell::new(usize::MAX) };
+}
 impl Node for Probe {
     fn process(&mut self, inputs: &[Input], output: &mut [Buffer]) {
+        if PANIC_ID.with(|p| p.get()) == self.id {
+            PANIC_ID.with(|p| p.set(usize::MAX));
+            panic!("probe node {} fails in process (with {} inputs)", self.id, inputs.len());
+        }
         self.calls += 1;
         let mut sum = 0.0f64;
         let mut ins = Vec::with_capacity(inputs.len());
@@ -202,6 +210,7 @@ thread_local! {
     static UNREACHED: Cell<u64> = const { Cell::new(0) };
     static VALUES: Cell<u64> = const { Cell::new(0) };
     static SELFLOOP: Cell<u64> = const { Cell::new(0) };
+    static RECOVERED: Cell<u64> = const { Cell::new(0) };
 }
 fn bump(c: &'static std::thread::LocalKey<Cell<u64>>) {
     c.with(|c| c.set(c.get() + 1));
@@ -490,6 +499,43 @@ where
                 return;
             }
         }
+        // a node with inputs panics inside process(); the caller catches the panic and goes on
+        // using the SAME processor: the next call must again present every node with exactly its
+        // own inputs (nothing left over from the aborted call)
+        if !lean || (d.edges.len() + out) % 3 == 0 {
+            let mut preds: Vec<Vec<usize>> = vec![Vec::new(); b.slots];
+            for &(u, v) in &b.edges {
+                preds[v].push(u);
+            }
+            let mut anc = vec![false; b.slots];
+            anc[out] = true;
+            let mut stack = vec![out];
+            let mut order = vec![out];
+            while let Some(v) = stack.pop() {
+                for &u in &preds[v] {
+                    if !anc[u] {
+                        anc[u] = true;
+                        stack.push(u);
+                        order.push(u);
+                    }
+                }
+            }
+            let cands: Vec<usize> = order.into_iter().filter(|v| preds[*v].iter().any(|u| u != v)).collect();
+            if !cands.is_empty() {
+                let victim = cands[(out + d.edges.len()) % cands.len()];
+                PANIC_ID.with(|p| p.set(victim));
+                let r = vmon::catch(std::panic::AssertUnwindSafe(|| b.g.run(shared, NodeIndex::new(out))));
+                let armed = PANIC_ID.with(|p| p.replace(usize::MAX));
+                if r.is_ok() || armed != usize::MAX {
+                    rep.violation(&format!("process|{}|upstream_node_not_invoked", C::NAME), format!("node {} (upstream of {}) was armed to panic but process() returned normally | graph {}", victim, out, d.encode()), format!("container={};out={};calls={};{}", C::NAME, out, calls + 1, d.encode()));
+                    return;
+                }
+                bump(&RECOVERED);
+                if !check_process(&mut b, shared, out, d, calls, rep, lean) {
+                    return;
+                }
+            }
+        }
         // and a fresh processor
         let mut fresh = Processor::<C>::with_capacity(b.slots.max(1));
         if !check_process(&mut b, &mut fresh, out, d, calls, rep, lean) {
@@ -585,6 +631,7 @@ fn flush(rep: &mut Report) {
     rep.hit_n("node_not_upstream_of_output", UNREACHED.with(|c| c.replace(0)));
     rep.hit_n("functional_value_checked", VALUES.with(|c| c.replace(0)));
     rep.hit_n("self_loop_in_upstream", SELFLOOP.with(|c| c.replace(0)));
+    rep.hit_n("process_after_a_node_panicked", RECOVERED.with(|c| c.replace(0)));
 }
 
 /// removal variants of a description for the stable graph: every subset of <= 2 removed nodes,
@@ -629,7 +676,7 @@ fn main() {
     }
     let stage = cli.stage.clone();
     let (shard, nshards) = (cli.shard, cli.nshards);
-    for o in ["cyclic_upstream_subgraph", "parallel_edges", "vacant_slots", "node_not_upstream_of_output", "functional_value_checked", "self_loop_in_upstream"] {
+    for o in ["process_after_a_node_panicked", "cyclic_upstream_subgraph", "parallel_edges", "vacant_slots", "node_not_upstream_of_output", "functional_value_checked", "self_loop_in_upstream"] {
         rep.oblige(o, 1);
     }
     // one processor per container type reused across the whole run (stale visit state would show)
